@@ -1,3 +1,20 @@
+mod c05;
+mod c30;
+mod c31;
+mod c32;
+mod c44;
+mod layout;
+mod outcmp;
+mod pool;
+
+use pvkit::session::CheckDef;
+
 fn main() {
-    pvkit::main(&[]);
+    pvkit::main(&[
+        CheckDef { id: "C32", level: "exploration", run: c32::run },
+        CheckDef { id: "C05", level: "exploration", run: c05::run },
+        CheckDef { id: "C30", level: "exploration", run: c30::run },
+        CheckDef { id: "C31", level: "exploration", run: c31::run },
+        CheckDef { id: "C44", level: "exploration", run: c44::run },
+    ]);
 }
